@@ -65,6 +65,7 @@ class PropertyRun:
         self.bounded = []
         self.unexpected_unreached = []
         self.force_level = None
+        self._searched = set()
         self.explanation = ''
 
     # -- intake -----------------------------------------------------------------------------
@@ -81,7 +82,7 @@ class PropertyRun:
         if rep.get('out_of_reach') or (rep.get('error') and contract is not None and hasattr(contract, 'model')):
             why = rep.get('out_of_reach') or ('checker error: ' + rep['error'][-300:])
             self.not_proved.append(f"{rep['function']}{rep.get('case', '')}: not proved in this run — {why}")
-            if 'thorough tier only' not in why:
+            if 'outside the registered tiers' not in why:
                 self.unexpected_unreached.append(rep['function'] + rep.get('case', ''))
                 self.sampled_fallback(rep, contract)
                 self.witness_fallback(rep, contract)
@@ -139,9 +140,30 @@ class PropertyRun:
                         fail['replay'] = replayer(contract, ob['inputs'])
                     except Exception as e:  # replay trouble is not a verdict
                         fail['replay'] = {'error': f'{type(e).__name__}: {e}'}
+                if not (fail.get('replay') or {}).get('reproduced') and contract is not None and hasattr(contract, 'model') \
+                        and rep['function'] not in self._searched:
+                    # the counter-model is not a replayable call (an intermediate loop state, or values the concretiser
+                    # cannot build): search the function's argument model natively for an input that breaks the contract
+                    self._searched.add(rep['function'])
+                    found = self.input_search(contract)
+                    if found is not None:
+                        fail['inputs'] = found['inputs']
+                        fail['replay'] = {'reproduced': True, 'observed': found['observed'], 'failed_clauses': found['failed_clauses'],
+                                          'input_source': 'native sampled search of the argument model (the solver model was not a replayable call)'}
                 self.failures.append(fail)
             else:
                 self.undecided.append({'obligation': ob['name'], 'function': rep['function'], 'reason': ob.get('reason', '')})
+
+    def input_search(self, contract):
+        try:
+            from .sampled import sampled_check
+            from .interp import Engine, Config, Ctx, Interp
+            from .source import Repo
+            ip = Interp(Ctx(Engine(Repo(), Config()), []))
+            _evals, _distinct, fails = sampled_check(contract, ip, n=120, seed=int(os.environ.get('VERIF_SEED', '0') or 0))
+        except Exception:
+            return None
+        return fails[0] if fails else None
 
     def witness_fallback(self, rep, contract):
         """bounded stand-in for a function the verifier cannot reach: the fixed native witness programs recorded for the
